@@ -9,3 +9,7 @@ package management
 //@ func cmdArgs [C24 C19]
 //@   scope functional
 //@   requires p != nil
+// ... and that a failed ParseFlags does not make `args` itself fail: once the result object is marshalled,
+// what `args` returns is what setting the variable returned (the parse error travels in the object).
+//@   at call (*Variables).Set#1 assert arg2 == varName && arg4 == types.Json && arg0 == p.Variables && arg3 == any(b)
+//@   at return #4 assert result == $varSetErr(p.Variables, varName, any(b), types.Json)
